@@ -38,6 +38,11 @@ type scenario struct {
 	Tamper    bool   `json:"tamper"`              // receiver-side tap alters a fraction of the protected packets
 	Cold      bool   `json:"cold"`                // tamper from the very first packet: the first packet of every format gets its SSRC altered
 	Seed      int64  `json:"seed"`
+	// mixed profiles on one RTSPS stream (play): next to the secure readers of Transport, secure
+	// library readers over the Extra transports and PlainPeers raw readers that negotiate
+	// RTP/AVP/TCP inside the TLS connection (see mix.go) play the same stream at the same time
+	Extra      []string `json:"extra_secure_readers,omitempty"`
+	PlainPeers int      `json:"plain_profile_peers,omitempty"`
 }
 
 // ---- cleartext monitor --------------------------------------------------------------------
@@ -52,6 +57,20 @@ type clearMon struct {
 	hits    atomic.Int64
 	mu      sync.Mutex
 	first   map[string]string // needle/where -> hex of the packet head
+	// frames the server wrote to plain-profile peers (not subject to the monitor) and how many
+	// of them contain a needle (evidence that those readers really are served in clear)
+	exempt, exemptHits atomic.Int64
+}
+
+// exemptFrame accounts a frame sent to a reader that negotiated the plain profile.
+func (m *clearMon) exemptFrame(b []byte) {
+	m.exempt.Add(1)
+	for _, n := range m.needles {
+		if bytes.Contains(b, n) {
+			m.exemptHits.Add(1)
+			return
+		}
+	}
 }
 
 func newClearMon() *clearMon {
@@ -265,8 +284,10 @@ func (s *sender) roc(ctr int) int {
 
 type endpoint struct { // one receiving endpoint
 	name     string
+	proto    string // udp | tcp | mcast | plain-tcp (names the transport in violation keys)
 	rd       *rig.Reader
-	pc       *rig.PlayClient
+	pc       *rig.PlayClient // library client (nil: server-side ingest or plain-profile peer)
+	plain    *plainPeer      // raw reader with the plain profile inside TLS (mixed scenarios)
 	decErr   atomic.Int64
 	decFirst atomic.Value
 	decMu    sync.Mutex
@@ -346,6 +367,26 @@ func (e *endpoint) close() {
 		e.pc.Rd.WindowClose("close")
 		e.pc.C.Close()
 	}
+	if e.plain != nil && !e.closing.Swap(true) {
+		e.rd.WindowClose("close")
+		e.plain.p.Close()
+	}
+}
+
+// serverSide: the receiving end is the server itself (record / back channel ingest).
+func (e *endpoint) serverSide() bool { return e.pc == nil && e.plain == nil }
+
+// died returns the error that ended the endpoint's session while nobody asked for it.
+func (e *endpoint) died() error {
+	if e.pc != nil {
+		return e.pc.Died()
+	}
+	if e.plain != nil {
+		if s, _ := e.plain.dead.Load().(string); s != "" {
+			return errors.New(s)
+		}
+	}
+	return nil
 }
 
 func (e *endpoint) onDecodeError(err error) {
@@ -413,6 +454,24 @@ type scenRun struct {
 	tagMu   sync.Mutex
 	connTag map[*gortsplib.ServerConn]string
 	sessTag map[*gortsplib.ServerSession]string
+	// mixed scenarios: remote addresses of the server connections that belong to plain-profile
+	// peers (registered by the peer before its first request) and the verdict per tapped connection
+	plainAddrs sync.Map // "ip:port" -> true
+	plainConns sync.Map // taps.Conn.ID -> bool
+}
+
+// toPlainPeer reports whether a server-side connection belongs to a reader that negotiated the
+// plain profile inside TLS: what the server writes there is outside the cleartext clause.
+func (sr *scenRun) toPlainPeer(c *taps.Conn) bool {
+	if sr.sc.PlainPeers == 0 {
+		return false
+	}
+	if v, ok := sr.plainConns.Load(c.ID); ok {
+		return v.(bool)
+	}
+	_, is := sr.plainAddrs.Load(c.RemoteAddr().String())
+	sr.plainConns.Store(c.ID, is)
+	return is
 }
 
 func (sr *scenRun) fail(key, what string, extra map[string]any) {
@@ -439,7 +498,7 @@ func (sr *scenRun) signalled(e *endpoint, err error) error {
 // sessionEnded: a session that ends by itself under an untampered load. When the reason is one
 // of the library's wall-clock watchdogs and the scheduler canary saw the machine stall, the
 // case is inconclusive; otherwise it is reported.
-func (sr *scenRun) sessionEnded(who, reason string) {
+func (sr *scenRun) sessionEnded(proto, who, reason string) {
 	sr.clMu.Lock()
 	closes := strings.Join(sr.closes, "; ")
 	sr.clMu.Unlock()
@@ -448,7 +507,7 @@ func (sr *scenRun) sessionEnded(who, reason string) {
 		run.Inconclusive("session ended by a wall-clock watchdog while the machine was stalled")
 		return
 	}
-	sr.fail("interop/"+sr.sc.Transport+"/"+sr.sc.Kind+"/session-ended-by-error",
+	sr.fail("interop/"+proto+"/"+sr.sc.Kind+"/session-ended-by-error",
 		fmt.Sprintf("%s ended during the load: %s (server: %s; worst scheduler lateness %v)", who, reason, closes, late), nil)
 }
 
@@ -479,7 +538,13 @@ func (sr *scenRun) udpHooks(side string, tamperIn bool) *taps.UDPHooks {
 }
 
 func (sr *scenRun) streamHooks(side string, tamperIn bool) *taps.StreamHooks {
-	h := &taps.StreamHooks{OnFrameOut: func(_ *taps.Conn, _ int, p []byte) { sr.clear.scan(side+"/tcp", p) }}
+	h := &taps.StreamHooks{OnFrameOut: func(c *taps.Conn, _ int, p []byte) {
+		if side == "server" && sr.toPlainPeer(c) {
+			sr.clear.exemptFrame(p)
+			return
+		}
+		sr.clear.scan(side+"/tcp", p)
+	}}
 	if tamperIn && sr.tam != nil {
 		h.OnFrameIn = func(_ *taps.Conn, ch int, p []byte) { sr.tam.packet(ch%2 == 1, p) }
 	}
@@ -647,7 +712,7 @@ func runScenario(sc scenario) {
 		ingest   *endpoint
 	)
 	if sc.Kind != "play" {
-		ingest = &endpoint{name: "server-ingest", rd: rig.NewReader("server-ingest", reliable, 5), apps: map[uint32][]byte{}, keepLog: sc.Tamper}
+		ingest = &endpoint{name: "server-ingest", proto: sc.Transport, rd: rig.NewReader("server-ingest", reliable, 5), apps: map[uint32][]byte{}, keepLog: sc.Tamper}
 	}
 	opts := rig.ServerOpts{
 		UDP: true, Multicast: sc.Transport == "mcast", TLS: !sc.Plain, HandlerSet: "full", NoLog: true, Desc: desc, NoStream: sc.Kind == "record",
@@ -813,12 +878,12 @@ func runScenario(sc scenario) {
 	}
 
 	// --- endpoints
-	newReader := func(i int) *endpoint {
-		ep := &endpoint{name: fmt.Sprintf("%s-r%d", sc.Name, i), apps: map[uint32][]byte{}, keepLog: sc.Tamper}
-		o := rig.ClientOpts{Name: ep.name, Proto: sc.Transport, HeldEvery: 97, ReadTimeout: 20 * time.Minute, WriteTimeout: 5 * time.Minute, WriteQueueSize: 1024}
+	newReaderOn := func(i int, proto string) *endpoint {
+		ep := &endpoint{name: fmt.Sprintf("%s-r%d", sc.Name, i), proto: proto, apps: map[uint32][]byte{}, keepLog: sc.Tamper}
+		o := rig.ClientOpts{Name: ep.name, Proto: proto, HeldEvery: 97, ReadTimeout: 20 * time.Minute, WriteTimeout: 5 * time.Minute, WriteQueueSize: 1024}
 		o.Mutate = sr.clientMutate(ep, sc.Kind == "play", func(c *gortsplib.Client) {
 			c.RequestBackChannels = back
-			if sc.Transport == "mcast" {
+			if proto == "mcast" {
 				prev := c.OnResponse
 				c.OnResponse = func(res *base.Response) { prev(res); joinGroup(res) }
 			}
@@ -833,12 +898,12 @@ func runScenario(sc scenario) {
 		err = ep.start()
 		sr.gate.Unlock()
 		if err != nil {
-			sr.fail("interop/"+sc.Transport+"/reader-start-failed", fmt.Sprintf("reader %d could not start: %v", i, err), nil)
+			sr.fail("interop/"+proto+"/reader-start-failed", fmt.Sprintf("reader %d could not start: %v", i, err), nil)
 			return nil
 		}
 		if !sc.Plain {
 			if t := pc.C.Transport(); t == nil || t.Session == nil || t.Session.Profile != headers.TransportProfileSAVP {
-				sr.fail("interop/"+sc.Transport+"/profile-not-savp", "an rtsps session negotiated a non-secure media profile", nil)
+				sr.fail("interop/"+proto+"/profile-not-savp", "an rtsps session negotiated a non-secure media profile", nil)
 			}
 		}
 		ep.playing.Store(true)
@@ -847,6 +912,7 @@ func runScenario(sc scenario) {
 		sr.emu.Unlock()
 		return ep
 	}
+	newReader := func(i int) *endpoint { return newReaderOn(i, sc.Transport) }
 
 	var write func(s *sender) func(*rtp.Packet) error
 	var writeRTCP func(rtcp.Packet) error
@@ -860,12 +926,27 @@ func runScenario(sc scenario) {
 		}
 		m0 := desc.Medias[0]
 		writeRTCP = func(p rtcp.Packet) error { return ts.Stream.WritePacketRTCP(m0, p) }
+		if sc.PlainPeers > 0 {
+			// mixed scenarios: ServerStream.WritePacketRTCP of every media in turn (one writer goroutine)
+			nRTCP := 0
+			writeRTCP = func(p rtcp.Packet) error {
+				nRTCP++
+				return ts.Stream.WritePacketRTCP(desc.Medias[nRTCP%len(desc.Medias)], p)
+			}
+			// the first plain-profile peer is there from the start (the others join under load)
+			if sr.newPlainPeer(0, desc) == nil {
+				return
+			}
+		}
 		nInit := 2
 		if sc.Transport == "mcast" || sc.Tamper {
 			nInit = 1
 		}
 		for i := 0; i < nInit; i++ {
 			newReader(i)
+		}
+		for i, proto := range sc.Extra {
+			newReaderOn(20+i, proto)
 		}
 	case "record":
 		pdesc := rig.MakeDesc(sc.Formats)
@@ -984,6 +1065,19 @@ func runScenario(sc scenario) {
 			}
 		}()
 	}
+	if sc.PlainPeers > 1 {
+		// the other plain-profile peers join while the secure readers are being served
+		wg.Add(1)
+		go func() {
+			defer wg.Done()
+			for k := 1; k < sc.PlainPeers; k++ {
+				for int(sr.senders[0].ctrA.Load()) < k*sc.Packets/(sc.PlainPeers+1) {
+					time.Sleep(2 * time.Millisecond)
+				}
+				sr.newPlainPeer(k, desc)
+			}
+		}()
+	}
 	wg.Wait()
 	if sr.tam != nil {
 		sr.tam.arm(false)
@@ -993,8 +1087,8 @@ func runScenario(sc scenario) {
 	// context lost synchronisation never sees a sentinel)
 	var drainEps []*endpoint
 	for _, e := range sr.activeReaders() {
-		if e.pc != nil && e.pc.Died() != nil {
-			sr.sessionEnded("reader "+e.name, e.pc.Died().Error())
+		if err := e.died(); err != nil {
+			sr.sessionEnded(e.proto, "reader "+e.name, err.Error())
 			continue
 		}
 		drainEps = append(drainEps, e)
@@ -1005,10 +1099,10 @@ func runScenario(sc scenario) {
 			d1, _ := e.decFirst.Load().(string)
 			if se, _ := sr.sendErr.Load().(string); se != "" {
 				// the sending side ended (writes fail): not a verdict about the receiver
-				sr.sessionEnded("sender", se)
+				sr.sessionEnded(sc.Transport, "sender", se)
 				continue
 			}
-			key := "interop/" + sc.Transport + "/" + sc.Kind + "/receiver-stopped-receiving"
+			key := "interop/" + e.proto + "/" + sc.Kind + "/receiver-stopped-receiving"
 			if sc.Tamper {
 				side := "client"
 				if e.pc == nil {
